@@ -75,6 +75,10 @@ _.out({"probe": r.leak, "id": _.bindings.id});
 return r;
 `
 
+// c10PolluterNull: whether polluters end by rejecting (returning null), as a guard does,
+// instead of returning bindings.
+var c10PolluterNull = false
+
 func c10Polluter(attacks []int) string {
 	var sb strings.Builder
 	sb.WriteString("var tick = _.props.tick || function() {}; var G = (new Function(\"return this\"))();\n")
@@ -84,7 +88,11 @@ func c10Polluter(attacks []int) string {
 			sb.WriteString("tick();\n")
 		}
 	}
-	sb.WriteString("return {\"polluted\": true, \"id\": (_.bindings && _.bindings.id) || null};\n")
+	if c10PolluterNull {
+		sb.WriteString("return null;\n")
+	} else {
+		sb.WriteString("return {\"polluted\": true, \"id\": (_.bindings && _.bindings.id) || null};\n")
+	}
 	return sb.String()
 }
 
@@ -221,6 +229,11 @@ func runC10(c *sim.Ctx, t *testing.T, concurrent bool) {
 		}
 		progs = append(progs, prog{src, x, attacks, act})
 	}
+	// a third of the runs: polluters reject like guards (return null), and all executions
+	// are handed equal bindings (what one leaves behind must not reach the next one through
+	// anything that is remembered per bindings value)
+	c10PolluterNull = c.Chance(1, 3, "rejecting")
+	sameIds := c10PolluterNull
 	comp(c10Probe, nil)
 	np := 1 + c.Intn(3, "npolluters")
 	for i := 0; i < np; i++ {
@@ -279,7 +292,11 @@ func runC10(c *sim.Ctx, t *testing.T, concurrent bool) {
 			defer cancel()
 		}
 		pg := progs[plan[i]]
-		bs := match.Bindings{"n": map[string]interface{}{"q": 1.0}, "arr": []interface{}{1.0}, "keep": "k", "id": float64(i),
+		id := float64(i)
+		if sameIds {
+			id = 0
+		}
+		bs := match.Bindings{"n": map[string]interface{}{"q": 1.0}, "arr": []interface{}{1.0}, "keep": "k", "id": id,
 			"deep": []interface{}{map[string]interface{}{"k": []interface{}{1.0, map[string]interface{}{"z": 1.0}}}, []interface{}{1.0}}}
 		props := core.StepProps{"mid": "m1", "cfg": map[string]interface{}{"x": 1.0}, "tick": tick}
 		if emptyProps {
@@ -400,7 +417,11 @@ func runC10(c *sim.Ctx, t *testing.T, concurrent bool) {
 		}
 		if plan[i] == 0 {
 			c.Count("probes")
-			wantBs, wantOut := c10Expected(float64(i), emptyProps)
+			wid := float64(i)
+			if sameIds {
+				wid = 0
+			}
+			wantBs, wantOut := c10Expected(wid, emptyProps)
 			if r.err != "" {
 				c.Violate("isolation:probe-failed", "probe %d failed with %q (executions before it: %v)", i, r.err, plan[:i])
 				continue
@@ -419,7 +440,7 @@ func runC10(c *sim.Ctx, t *testing.T, concurrent bool) {
 		}
 	}
 	c.MixHash(shape)
-	c.Path = shape + fmt.Sprint(concurrent, useCompiled, emptyProps, nanBindings, viaAction, deadlines)
+	c.Path = shape + fmt.Sprint(concurrent, useCompiled, emptyProps, nanBindings, viaAction, deadlines, sameIds)
 	for _, pg := range progs[1:] {
 		c.Path += fmt.Sprint(pg.attacks)
 	}
